@@ -44,6 +44,7 @@ MIN_JUDGED = {"quick": 300, "thorough": 8000}
 FINDING_MENTION = "C10-delete-hits-first-line-mentioning-the-zid"
 FINDING_MULTIWORD = "C10-inherited-multiword-property-truncated"
 FINDING_HEADER_ONLY = "C10-destination-without-blank-line-after-header"
+FINDING_HEADLINE = "C10-headline-bullet-property-lost-behind-inserted-metadata"
 
 
 def setup_worker() -> None:
@@ -69,6 +70,16 @@ def own_first_line_index(lines: list[str], zid: str):
     for i, l in enumerate(lines):
         if hg.ITEM_START.match(l) and hg.first_line_parts(l)[2] == zid:
             return i
+    return None
+
+
+def _headline_key(first_line: str, zid: str):
+    """'- [Pn] [YYMMDD] ZID key:: words' -> 'key' (the word right after the note's own ZID is a bullet-style property key)"""
+    ws = first_line.split()
+    if zid in ws:
+        i = ws.index(zid)
+        if i + 1 < len(ws) and ws[i + 1].endswith("::") and not ws[i + 1].startswith("[") and len(ws[i + 1]) > 2:
+            return ws[i + 1][:-2]
     return None
 
 
@@ -101,6 +112,21 @@ def run_dir(acc: Acc, seed: int, idx: int, nmoves: int, only=None) -> None:
                     it.words.append(pg.W("fyi"))
                     if form == "plain":
                         mention_targets.add(tgt.zid)
+        # notes that link to themselves / to a longer ZID sharing their own as a prefix, and notes whose
+        # first word after the ZID is a bullet-style property key ("- ZID key:: value words")
+        for rel, p in z.pages.items():
+            for _b, it in pg.iter_items(p):
+                if not it.zid:
+                    continue
+                u = rng.random()
+                if u < 0.12:
+                    it.words.append(pg.W(f"[[{it.zid}]]", links=(it.zid,), form="self_link"))
+                elif u < 0.2:
+                    it.words.append(pg.W(f"[[{it.zid}{rng.choice('abXY01')}]]", form="self_prefix_link"))
+                elif u < 0.24:
+                    it.words.append(pg.W(f"see {it.zid} again", form="self_mention"))
+                if rng.random() < 0.1 and it.words and not it.words[0].has_meta() and not it.words[0].text.endswith("::"):
+                    it.words.insert(0, pg.W("hq::", form="headline_prop"))
         # decoys: the text of an INHERITED tag embedded in a token that is not that tag
         # (bob@office, c++fast, 50%who, [#keys], +foobar for +foo, #tag2 for #tag)
         for rel, p in z.pages.items():
@@ -296,7 +322,10 @@ def run_dir(acc: Acc, seed: int, idx: int, nmoves: int, only=None) -> None:
                 if lost:
                     acc.violation(f"moved note lost inherited {attr} {sorted(lost)}", case, cls=f"moved note: lost {attr}")
             lost_p = {k: v for k, v in row["props"].items() if moved.properties.get(k) != v}
-            if lost_p:
+            hk = _headline_key(note_lines[0], zid)
+            if lost_p and hk and set(lost_p) == {hk} and _headline_key(moved_first, zid) is None:
+                acc.violation(f"moved note lost its headline property {hk!r}: {note_lines[0]!r} -> {moved_first!r}", case, cls="moved note: headline bullet property lost behind the inserted metadata", finding=FINDING_HEADLINE)
+            elif lost_p:
                 fin = FINDING_MULTIWORD if all(" " in v and moved.properties.get(k) == v.split(" ")[0] for k, v in lost_p.items()) else None
                 acc.violation(f"moved note lost / changed properties {lost_p} (now {dict(moved.properties)})", case, cls="moved note: property lost or changed" + (" (multi-word value truncated)" if fin else ""), finding=fin)
             # body: original words all still there, in order, after the ZID
